@@ -206,6 +206,38 @@ Proof.
   repeat split; try reflexivity; apply grid_a_invariant; exact Hk.
 Qed.
 
+
+(** the coordinate maps chi -> z, rho_z -> p_z, rho_par -> p_par : z ~ 1/lam, momenta ~ lam *)
+Definition grid_scaled (lam : R) (s s' : gr_st) : Prop :=
+  gr_tailLengthInside s' = / lam * gr_tailLengthInside s /\
+  gr_tailLengthOutside s' = / lam * gr_tailLengthOutside s /\
+  gr_wallThickness s' = / lam * gr_wallThickness s /\
+  gr_wallCenter s' = / lam * gr_wallCenter s /\
+  gr_ratioPointsWall s' = gr_ratioPointsWall s /\ gr_smoothing s' = gr_smoothing s /\
+  gr_aIn s' = gr_aIn s /\ gr_aOut s' = gr_aOut s /\
+  gr_momentumFalloffT s' = lam * gr_momentumFalloffT s.
+
+Lemma totalMapping_scaling lam e s s' x : grid_scaled lam s s' ->
+  gr_totalMapping e s' x = / lam * gr_totalMapping e s x.
+Proof.
+  intros [E1 [E2 [E3 [E4 [E5 [E6 [E7 [E8 E9]]]]]]]].
+  unfold gr_totalMapping, gr_term1, gr_term2, gr_term3, gr_term4, gr_term5.
+  rewrite E1, E2, E3, E5, E6, E7, E8. unfold Rdiv. ring.
+Qed.
+
+Lemma decompactify_scaling lam e s s' x y w : grid_scaled lam s s' ->
+  gr_decompactify e s' x y w =
+  (/ lam * fst (fst (gr_decompactify e s x y w)),
+   lam * snd (fst (gr_decompactify e s x y w)),
+   lam * snd (gr_decompactify e s x y w)).
+Proof.
+  intro H. pose proof (totalMapping_scaling lam e s s' x H) as Hx.
+  pose proof (totalMapping_scaling lam e s s' 0 H) as H0.
+  destruct H as [E1 [E2 [E3 [E4 [E5 [E6 [E7 [E8 E9]]]]]]]].
+  unfold gr_decompactify. cbn [fst snd]. rewrite Hx, H0, E4, E9.
+  f_equal; [f_equal|]; ring.
+Qed.
+
 (* ------------------------------------------------------------------------------------ *)
 (** * Thermodynamics (thermodynamics.py): all piecewise EOS functions and setExtrapolate *)
 
@@ -720,6 +752,14 @@ Theorem grid_parameters_covariant : forall lam e s s' tIn tOut L r sm c, 0 < lam
   gr_ratioPointsWall G' = gr_ratioPointsWall G /\ gr_smoothing G' = gr_smoothing G.
 Proof. exact grid_parameters_scaling. Qed.
 Print Assumptions grid_parameters_covariant.
+
+Theorem grid_maps_covariant : forall lam e s s' x y w, grid_scaled lam s s' ->
+  gr_decompactify e s' x y w =
+  (/ lam * fst (fst (gr_decompactify e s x y w)),
+   lam * snd (fst (gr_decompactify e s x y w)),
+   lam * snd (gr_decompactify e s x y w)).
+Proof. exact decompactify_scaling. Qed.
+Print Assumptions grid_maps_covariant.
 
 (** non-vacuity: a table satisfying the hypotheses (ideal gas f = -T^4 on [1,2]), and a
     pair of states related by [scaled_High] *)
